@@ -71,6 +71,8 @@ pub fn c18_history() {
     // were LOADED from the bucket (not written by it in this life)
     if vsym::param("restart_first", 0) == 1 && snap.is_some() {
         n = restart_node("n1");
+        // a node alone in its cluster elects itself at start-up (start_election: "Only one node in the cluster, will set as primary")
+        n.dbs.node_state.swap(ClusterRole::Primary as usize, vstd::sync::atomic::Ordering::Relaxed);
         let r = admin_client(&n.dbs); c = r.0; rx = r.1;
         vsym::assume(is_ok(&process_request("use-db d tok", &n.dbs, &mut c)));
         vsym::cover("restart.first-done", true);
